@@ -10,8 +10,9 @@ A transliteration of the *Pattern Semantics* of ECMA-262 (2025): `CompilePattern
 
 As in the standard a *Matcher* is a closure taking a *MatchState* and a *MatcherContinuation*;
 the only addition is a fuel argument that `RepeatMatcher` decreases at each iteration (it bounds
-the length of any chain of iterations of one quantifier; `n + min + 2` is always enough for an
-input of `n` characters) and a third *MatchResult*, `outOfFuel`, which is propagated like a
+the length of any chain of iterations of one quantifier; since an iteration with `min = 0` must
+move the end index, about `n + min + 2` suffices for an input of `n` characters; by
+`esExec_fuel_mono` in `Proofs/Lemmas/ESLaws.lean` a definite answer never depends on the fuel) and a third *MatchResult*, `outOfFuel`, which is propagated like a
 success so that it can never be mistaken for a failure.
 
 Characters are code points in every mode; positions are code point indices.
